@@ -11,6 +11,7 @@ import (
 	"net/http"
 	"net/http/httptest"
 	"regexp"
+	"runtime"
 	"strconv"
 	"sync"
 	"testing"
@@ -35,7 +36,11 @@ type c09Case struct {
 	StaleMD  string `json:",omitempty"` // client/e2e: the caller's outgoing metadata already carries a grpc-timeout key (e.g. forwarded by a gateway)
 	GapUs    int    `json:",omitempty"` // client: a second call is made this much later under the same context
 	CredUs   int    `json:",omitempty"` // e2e: the call carries per-RPC credentials whose callback takes this long (token refresh); that is not transit time
-	ParentNs int64  `json:",omitempty"` // server: the HTTP request context has its own deadline this far ahead (e.g. http.TimeoutHandler)
+	// Overlap (mode "overlap"): N calls with deadlines of their own are started back to back on one channel (streams:
+	// NewStream returns before the request is on its way; unary calls from goroutines of their own); the transport
+	// looks at each request's header only once all of them have been started. Each carries its own deadline.
+	OverlapNs []int64 `json:",omitempty"`
+	ParentNs  int64   `json:",omitempty"` // server: the HTTP request context has its own deadline this far ahead (e.g. http.TimeoutHandler)
 }
 
 var reTimeout = regexp.MustCompile(`^[0-9]+[HMSmun]$`)
@@ -63,8 +68,112 @@ func propC09(c c09Case) *Outcome {
 		return c09Client(c, o)
 	case "server":
 		return c09Server(c, o)
+	case "overlap":
+		return c09Overlap(c, o)
 	}
 	return c09E2E(c, o)
+}
+
+func c09Overlap(c c09Case, o *Outcome) *Outcome {
+	o.NonTrivial = true
+	o.class("overlap/calls=%d", len(c.OverlapNs))
+	n := len(c.OverlapNs)
+	var mu sync.Mutex
+	seen := make([][]string, n)
+	at := make([]time.Time, n)
+	allStarted := make(chan struct{})
+	ch := &httpgrpc.Channel{BaseURL: baseURL, Transport: rtFunc(func(r *http.Request) (*http.Response, error) {
+		t1 := time.Now()
+		// what matters is what the request says when it is written, which is after RoundTrip was entered
+		select {
+		case <-allStarted:
+		case <-time.After(200 * time.Millisecond):
+		}
+		k, _ := strconv.Atoi(r.Header.Get("Zz-Call"))
+		mu.Lock()
+		if k >= 0 && k < n {
+			seen[k] = append([]string{}, r.Header.Values("Grpc-Timeout")...)
+			for i := range seen[k] {
+				seen[k][i] = string(append([]byte{}, seen[k][i]...)) // the bytes as they are now
+			}
+			at[k] = t1
+		}
+		mu.Unlock()
+		go io.Copy(io.Discard, r.Body)
+		body := []byte(nil)
+		ct := httpgrpc.UnaryRpcContentType_V1
+		if c.Stream {
+			body = encodeStream(nil, &httpgrpc.HttpTrailer{Message: "OK"})
+			ct = httpgrpc.StreamRpcContentType_V1
+		}
+		return &http.Response{StatusCode: 200, Status: "200 OK", Proto: "HTTP/1.1", ProtoMajor: 1, ProtoMinor: 1, Header: http.Header{"Content-Type": {ct}},
+			Body: io.NopCloser(bytes.NewReader(body)), Request: r}, nil
+	})}
+	t0 := make([]time.Time, n)
+	D := make([]time.Time, n)
+	var wg sync.WaitGroup
+	var cancels []context.CancelFunc
+	for k := 0; k < n; k++ {
+		t0[k] = time.Now()
+		D[k] = t0[k].Add(time.Duration(c.OverlapNs[k]))
+		ctx, cancel := context.WithDeadline(metadata.AppendToOutgoingContext(context.Background(), "zz-call", strconv.Itoa(k)), D[k])
+		cancels = append(cancels, cancel)
+		if c.Stream {
+			cs, err := ch.NewStream(ctx, streamDescOf(kBidi), mBidi)
+			if err == nil {
+				wg.Add(1)
+				go func() { defer wg.Done(); cs.Header() }()
+			}
+		} else {
+			wg.Add(1)
+			started := make(chan struct{})
+			go func() {
+				defer wg.Done()
+				close(started)
+				ch.Invoke(ctx, mUnary, &pb.Message{}, new(pb.Message))
+			}()
+			<-started
+			runtime.Gosched()
+		}
+	}
+	close(allStarted)
+	stall := guard("overlapping calls", wg.Wait)
+	for _, cancel := range cancels {
+		cancel()
+	}
+	if stall != "" {
+		return o.failf("%s", stall)
+	}
+	mu.Lock()
+	defer mu.Unlock()
+	o.Observed = map[string]interface{}{"headers": seen, "remaining_ns": c.OverlapNs}
+	for k := 0; k < n; k++ {
+		if at[k].IsZero() {
+			return o.failf("overlap: call %d of %d never reached the transport", k+1, n)
+		}
+		if len(seen[k]) != 1 {
+			return o.failf("overlap: call %d (deadline in %v): GRPC-Timeout headers %q", k+1, time.Duration(c.OverlapNs[k]), seen[k])
+		}
+		h := seen[k][0]
+		if len(h) < 2 || h[len(h)-1] != 'm' {
+			return o.failf("overlap: call %d of %d started back to back (deadline in %v): GRPC-Timeout %q is not of the form <millis>m (headers of all calls: %q)", k+1, n, time.Duration(c.OverlapNs[k]), h, seen)
+		}
+		v, err := strconv.ParseInt(h[:len(h)-1], 10, 64)
+		if err != nil {
+			return o.failf("overlap: call %d: GRPC-Timeout %q: %v", k+1, h, err)
+		}
+		lo, hi := int64(D[k].Sub(at[k])/time.Millisecond), int64(D[k].Sub(t0[k])/time.Millisecond)
+		if lo < 1 {
+			lo = 1
+		}
+		if hi < 1 {
+			hi = 1
+		}
+		if v < lo || v > hi {
+			return o.failf("overlap: call %d of %d started back to back, %v before its deadline: GRPC-Timeout %q outside [%d, %d] ms (headers of all calls: %q)", k+1, n, D[k].Sub(t0[k]), h, lo, hi, seen)
+		}
+	}
+	return o
 }
 
 func c09Client(c c09Case, o *Outcome) *Outcome {
@@ -442,6 +551,15 @@ func genTimeoutHeader(t *rapid.T) string {
 }
 
 func genC09(t *rapid.T) c09Case {
+	if rapid.IntRange(0, 19).Draw(t, "overlap") == 0 {
+		c := c09Case{Mode: "overlap", Stream: rapid.IntRange(0, 2).Draw(t, "ostream") > 0}
+		n := rapid.IntRange(2, 4).Draw(t, "ocalls")
+		for i := 0; i < n; i++ {
+			// whole seconds apart, some with the same number of digits in milliseconds and some not
+			c.OverlapNs = append(c.OverlapNs, int64(rapid.SampledFrom([]int{2, 5, 20, 30, 50, 70, 300, 900, 4000}).Draw(t, "osecs"))*int64(time.Second))
+		}
+		return c
+	}
 	switch rapid.IntRange(0, 9).Draw(t, "mode") {
 	case 0, 1, 2:
 		c := c09Case{Mode: "client", Stream: rapid.Bool().Draw(t, "stream"), StaleMD: rapid.SampledFrom([]string{"", "", "", "1H", "5S", "1n"}).Draw(t, "stalemd")}
@@ -489,7 +607,7 @@ func init() { registerReplay("C09", propC09) }
 const c09Rule = "rapid-generated: (client) remaining durations log-uniform 50us..10y or no deadline, GRPC-Timeout captured by a recording RoundTripper for Invoke and NewStream, oracle max(1,floor((D-t1)/ms)) <= v <= max(1,floor((D-t0)/ms)); " +
 	"(server) GRPC-Timeout strings from a grammar (1-8 digits x 6 units, 9-19 digits, >int64, int64 edge values per unit, signs, spaces, missing/bad units, junk) against the real handlers via httptest, oracle: well-formed non-negative value => handler deadline within [start+sat(v*unit)-50us, handlerEntry+sat(v*unit)] with saturating arithmetic, never a panic or 5xx; " +
 	"also generated since the seeded rounds: grpc-timeout already present in the caller's outgoing metadata, request contexts with their own (laxer or stricter) deadline, per-RPC credentials whose callback takes 3..20 ms (transit counted from its return); " +
-	"(e2e) caller deadline vs handler deadline over an in-memory net/http round trip, one-sided bounds of 1 ms + transit; non-trivial = unit != m, >=7 digits, malformed, no deadline, remaining < 1 ms or > 1 h; distinct by case hash"
+	"(e2e) caller deadline vs handler deadline over an in-memory net/http round trip, one-sided bounds of 1 ms + transit; an overlap mode (2..4 calls with deadlines whole seconds apart started back to back on one channel, the transport reading each request's header only after all were started: each carries the time left to its own deadline); non-trivial = unit != m, >=7 digits, malformed, no deadline, remaining < 1 ms or > 1 h; distinct by case hash"
 
 func TestC09(t *testing.T) {
 	runProp(t, "C09", c09Rule, genC09, propC09)
